@@ -217,8 +217,11 @@ def _snapshot(ctx, PC, final, uses_fmap):
         ename, tname = lab.get("executor"), lab.get("type")
         tid = 0 if tname is None else TYPES.get(tname, 98)
         eid = ctx.exec_ids.get(ename)
-        if eid is None and ename == "default" and name in FUTURE_METRICS and (
-                tname in ("zip", "or", "and") or (tname == "map" and uses_fmap)):
+        if eid is None and name in FUTURE_METRICS and (
+                (ename == "default" and tname in ("zip", "or", "and")) or
+                (ename in ("default", "internal") and tname == "map" and uses_fmap)):
+            # (f_map builds its layers on the "internal" executor with with_*() after bind(): since the repair of
+            #  D10 they inherit that name, before it they were labelled "default")
             # outputs of the combinators the scenario called itself (f_map's output is labelled map/default;
             # the executors and the intermediate flat_map future f_map builds internally are not events the
             # harness can count, so their children are left out)
